@@ -16,6 +16,7 @@ theorem getUint_uint (bits n : Nat) (h : n < 2 ^ bits) : getUint bits (.uint n) 
 @[simp] theorem getBool_bool (b : Bool) : getBool (.bool b) = .ok b := rfl
 @[simp] theorem getBytes_put (o : Option Bytes) : getBytes (putBytes o) = .ok o := by cases o <;> rfl
 @[simp] theorem getKey_raw (bs : Bytes) : getKey (.raw bs) = .ok bs := rfl
+@[simp] theorem getFieldKey_cons (b : UInt8) (bs : Bytes) : getFieldKey (.raw (b :: bs)) = .ok (b :: bs) := rfl
 
 theorem getInt64_put (i : Int) (h1 : -9223372036854775808 ≤ i) (h2 : i < 9223372036854775808) :
     getInt64 (putInt i) = .ok i := by
@@ -76,7 +77,7 @@ theorem minsert_fresh {β} (m : List (Bytes × β)) (k : Bytes) (v : β) (h : m.
 theorem foldPairs_strmap {β} (f : β → MP) (val : MP → R β) (kvs acc : List (Bytes × β))
     (hv : ∀ p ∈ kvs, val (f p.2) = .ok p.2) (hn : keysNodup kvs = true)
     (hd : ∀ p ∈ kvs, acc.any (·.1 == p.1) = false) :
-    foldPairsR (fun m k v => (val v).map (minsert m k)) acc (kvs.map fun p => (MP.raw p.1, f p.2))
+    foldPairsR getKey (fun m k v => (val v).map (minsert m k)) acc (kvs.map fun p => (MP.raw p.1, f p.2))
       = .ok (acc ++ kvs) := by
   induction kvs generalizing acc with
   | nil => simp [foldPairsR]
